@@ -1,11 +1,11 @@
 #!/bin/bash
 # runs every claimed check (tier $1, default quick) sequentially and prints exit code + wall time
 TIER=${1:-quick}
-cd /verif
+cd "$(dirname "$0")/.."
 for id in $(python3 -c "import json; print(' '.join(c['property_id'] for c in json.load(open('MANIFEST.json'))['checks']))"); do
   s=$(date +%s)
-  ./check $id --tier $TIER > /tmp/runall_$id.log 2>&1
+  ./check $id --tier $TIER > /tmp/runall_${TIER}_$id.log 2>&1
   rc=$?
   e=$(date +%s)
-  echo "$id rc=$rc $((e-s))s $(grep -c '^KNOWN-FINDING' /tmp/runall_$id.log) known $(head -1 /tmp/runall_$id.log | cut -c1-120)"
+  echo "$id rc=$rc $((e-s))s $(grep -c '^KNOWN-FINDING' /tmp/runall_${TIER}_$id.log) known $(head -1 /tmp/runall_${TIER}_$id.log | cut -c1-120)"
 done
